@@ -165,7 +165,7 @@ def cache_cases(rng, n_files):
 
 
 def run_cache_mode(ctx, rng, quick, scratch, cdir):
-    cases = cache_cases(rng, 110 if quick else 3000)
+    cases = cache_cases(rng, 90 if quick else 3000)
     wit = cache_witness_cases()
     allc = [(bs, f, tab, ops, "plain") for _, bs, f, tab, ops in wit] + [c[:4] + (c[5],) for c in cases]
     prof = ["wild"] * len(wit) + [c[4] for c in cases]
